@@ -19,6 +19,20 @@ PROPS = "props/C15.v"
 PER_CASE = 6
 PROBES = ["select 1", "select count(*) from probe_t", "show batch_size"]
 SETUP = ["create temp table probe_t (a int)", "insert into probe_t values (1), (2), (3)", "set batch_size to 77"]
+DEFAULT_CFG = (77, 2)
+BATCH_SIZES = [1, 2, 3, 77, 2048]
+PARTITIONS = [1, 4]
+
+
+def setup_for(cfg):
+    bs, parts = cfg
+    return ["set partitions to %d" % parts, "create temp table probe_t (a int)", "insert into probe_t values (1), (2), (3)",
+            "set batch_size to %d" % bs]
+
+
+def cfg_of(chunk):
+    t = chunk[0]
+    return t[2] if len(t) > 2 and t[2] else DEFAULT_CFG
 KNOWN_CRASH_DEPTH = 3000
 
 TOKEN_RE = re.compile(r"'(?:[^']|'')*'|\"[^\"]*\"|\d+\.\d+|\d+|[A-Za-z_][A-Za-z_0-9]*|<>|<=|>=|!=|\|\||::|[^\sA-Za-z_0-9]")
@@ -163,6 +177,93 @@ def directed():
     return d
 
 
+EXTRA_FUNCTIONS = ["unnest", "grouping", "coalesce", "nullif", "greatest", "least", "cast", "try_cast", "extract", "position", "now", "current_date",
+                   "current_timestamp", "row", "array", "struct", "list", "exists", "any", "all", "if", "ifnull", "typeof", "nosuchfunction"]
+_FUNCS = {}
+
+
+def function_names(gverif):
+    """every function the engine lists (scalar, aggregate, table; extension schemas qualified) + the special-cased names"""
+    if "names" not in _FUNCS:
+        r = common.run_harness(gverif, "sql", [{"id": "lf", "mode": "det", "timeout_s": 60, "stmts": [
+            "select distinct schema_name, function_name, function_type from list_functions() order by 3, 1, 2"]}])[0]
+        rows = (r.get("results") or [{}])[0].get("rows") or []
+        names = []
+        for sch, fn, ty in rows:
+            sch, fn, ty = sch[1:], fn[1:], ty[1:]
+            if not re.match(r"^[A-Za-z_][A-Za-z_0-9]*$", fn):
+                continue        # operator symbols: reached through the expression generators
+            names.append(((sch + "." if sch != "default" else "") + fn, ty))
+        names += [(n, "special") for n in EXTRA_FUNCTIONS if n not in [x[0] for x in names]]
+        _FUNCS["names"] = names
+        _FUNCS["listed"] = len(rows)
+        r = common.run_harness(gverif, "sql", [{"id": "le", "mode": "det", "timeout_s": 60, "stmts": [
+            "select distinct example from list_functions() where example is not null order by 1"]}])[0]
+        _FUNCS["examples"] = [x[0][1:] for x in ((r.get("results") or [{}])[0].get("rows") or []) if x[0].startswith("S") and "\n" not in x[0]]
+    return _FUNCS["names"]
+
+
+ARG_KINDS = {"null": ["NULL"], "int": ["1", "0", "-1", "2"], "text": ["'a'", "''", "'%'", "'1'"], "bool": ["true", "false"],
+             "list": ["[1, 2]", "[]", "['a']", "[NULL]"], "float": ["1.5"], "col": ["a"], "star": ["*"]}
+
+
+def function_calls(rng, tier):
+    gverif = _FUNCS.get("gverif")
+    if gverif is None:
+        return []
+    out = []
+    quick = tier == "quick"
+    kinds = list(ARG_KINDS)
+    for name, ty in function_names(gverif):
+        argsets = []
+        for k in range(4):
+            sets = [[rng.choice(ARG_KINDS[rng.choice(kinds[:6])]) for _ in range(k)]]
+            if not quick:
+                for kind in ("null", "int", "text", "bool", "list"):
+                    sets.append([rng.choice(ARG_KINDS[kind]) for _ in range(k)])
+            elif k > 0 and rng.chance(50):
+                kind = rng.choice(["null", "int", "text", "list"])
+                sets.append([rng.choice(ARG_KINDS[kind]) for _ in range(k)])
+            argsets += sets
+        argsets.append(["*"])
+        if not quick:
+            argsets += [["a"], ["a", "a"], ["*", "1"]]
+        for args in argsets:
+            call = "%s(%s)" % (name, ", ".join(args))
+            usecol = any(x in ("a", "*") for x in args)
+            out.append(("function-select", "select %s%s" % (call, " from probe_t" if usecol or rng.chance(30) else "")))
+        # contexts and modifiers on a sample of the argument lists (the documented examples follow after the loop)
+        ctx_sets = argsets if not quick else [argsets[0], rng.choice(argsets), rng.choice(argsets)]
+        for args in ctx_sets:
+            a = ", ".join(args)
+            forms = ["select 1 from probe_t where %s(%s)" % (name, a), "select * from %s(%s)" % (name, a),
+                     "select %s(distinct %s) from probe_t" % (name, a), "select %s(%s) filter (where a > 1) from probe_t" % (name, a),
+                     "select %s(%s) over () from probe_t" % (name, a), "select a from probe_t group by a having %s(%s)" % (name, a),
+                     "select * from probe_t, %s(%s) f" % (name, a), "select a from probe_t order by %s(%s)" % (name, a)]
+            picks = forms if not quick else rng.shuffle(forms)[:3]
+            for f in picks:
+                out.append(("function-context", f))
+    # the example the engine documents for each function: a well-typed call of every one of them
+    for ex in _FUNCS.get("examples") or []:
+        out.append(("function-example", ex if re.match(r"\s*(select|with|values)\b", ex, re.I) else "select " + ex))
+    return out
+
+
+def values_stream():
+    big = ", ".join("(%d, 'v%d')" % (i, i % 7) for i in range(300))
+    return ["select * from (values (1), (2), (3)) v(a)", "values (1, 'a'), (2, 'b'), (3, 'c'), (4, 'd'), (5, 'e')", "select * from (values (1)) v",
+            "select count(*), sum(a) from (values (1), (2), (3), (4), (5), (6), (7)) v(a)", "select * from (values %s) v(a, b)" % big,
+            "select b, count(*) from (values %s) v(a, b) group by b" % big, "select * from (values %s) v(a, b) order by a desc limit 5" % big,
+            "select * from (values (1), (2)) x(a), (values (3), (4), (5)) y(b)", "select * from (values (1), (2), (3)) x(a) join (values (2), (3), (4)) y(b) on a = b",
+            "select * from (values (1), (2)) v union all select * from (values (3), (4), (5)) w", "select * from (values (1), (NULL), (3)) v(a) where a is not null",
+            "insert into probe_t values (4), (5), (6), (7), (8)", "insert into probe_t select * from (values (9), (10), (11)) v",
+            "create temp table v_t as select * from (values (1, 'x'), (2, 'y'), (3, 'z'), (4, 'w'), (5, 'v')) v(a, b)",
+            "create temp table g_t as select a, a * 2 as b from generate_series(1, 9) g(a)", "create temp table e_t (a int, b text)",
+            "select * from generate_series(1, 7)", "select * from probe_t p1, probe_t p2", "select a, (select count(*) from (values (1), (2), (3)) v) from probe_t",
+            "select * from (values (1), (2), (3)) v(a) where a in (select a from probe_t)", "select distinct a from (values (1), (1), (2), (2), (3)) v(a)",
+            "select * from (values (1), (2), (3), (4), (5)) v(a) limit 2 offset 2"]
+
+
 def corpus(rng, tier):
     """valid statements of the other checks' generators; returns (setup statements, [sql])"""
     tables = sqlgen.make_db(rng, ntables=2, max_rows=9)
@@ -194,19 +295,31 @@ def build_cases(rng, tier):
     for _ in range(60 if tier == "quick" else 1500):
         tests.append(("soup", soup(rng)))
     tests += directed()
+    # every function name x arities x argument kinds x contexts
+    tests += function_calls(rng, tier)
+    # the valid stream and a VALUES / INSERT / CTAS heavy stream under small and large batch sizes, 1 and 4 partitions
+    allcfg = [(bs, p) for bs in BATCH_SIZES for p in PARTITIONS]
+    for i, sql in enumerate(valid):
+        picks = allcfg if tier != "quick" else [allcfg[(2 * i) % len(allcfg)], (rng.choice([1, 2, 3]), rng.choice(PARTITIONS))]
+        for cfg in picks:
+            tests.append(("valid-matrix", sql, cfg))
+    for cfg in allcfg:
+        for sql in values_stream():
+            tests.append(("values-matrix", sql, cfg))
     return setup_db, tests
 
 
 def make_case(cid, setup_db, chunk, mode):
-    stmts = list(SETUP) + list(setup_db)
+    cfg = cfg_of(chunk)
+    stmts = setup_for(cfg) + list(setup_db)
     pos = []
-    for (label, sql) in chunk:
+    for (label, sql) in [t[:2] for t in chunk]:
         pos.append(len(stmts))
         stmts.append(sql)
         stmts += PROBES
         if label == "runtime-kth-ctas":
             stmts.append("select count(*) from ctas_t")
-    case = {"id": cid, "mode": mode, "threads": 2, "partitions": 2, "timeout_s": 20, "stmts": stmts,
+    case = {"id": cid, "mode": mode, "threads": 2 if cfg[1] < 4 else 4, "partitions": cfg[1], "timeout_s": 20, "stmts": stmts,
             "sched": {"kind": "fifo", "seed": 1}}
     return case, pos
 
@@ -270,13 +383,17 @@ def match_known(cls, site, msg, sql, klist):
 
 
 def stage_fuzz(ctx, rng, gverif, klist):
+    _FUNCS["gverif"] = gverif
     setup_db, tests = build_cases(rng, ctx["tier"])
     stats = {"outcomes": {}, "by_label": {}, "probe_checks": 0, "statements": 0, "threaded_cases": 0, "error_texts": set()}
     viol, known = [], {}
     slow_re = [m["match"]["sql"] for m in klist if m.get("match", {}).get("sql_only")]
     is_slow = lambda sql: any(re.search(p, sql, re.I | re.S) for p in slow_re)
     fast = [t for t in tests if not is_slow(t[1])]
-    queue = [tests[i:i + PER_CASE] for i in range(0, 0)] + [fast[i:i + PER_CASE] for i in range(0, len(fast), PER_CASE)] + \
+    bycfg = {}
+    for t in fast:
+        bycfg.setdefault(cfg_of([t]), []).append(t)
+    queue = [ts[i:i + PER_CASE] for cfg, ts in sorted(bycfg.items()) for i in range(0, len(ts), PER_CASE)] + \
             [[t] for t in tests if is_slow(t[1])]      # statements of the known slow classes: a session each
     rounds = 0
     ncase = 0
@@ -293,8 +410,9 @@ def stage_fuzz(ctx, rng, gverif, klist):
                 stats["threaded_cases"] += 1
         real = fault.run_parallel(gverif, cases, timeout=2400)
         queue = []
-        nsetup = len(SETUP) + len(setup_db)
         for c, (chunk, pos), r in zip(cases, meta, real):
+            cfg = cfg_of(chunk)
+            nsetup = len(setup_for(cfg)) + len(setup_db)
             results = r.get("results") or []
             dead_at = None      # index of the test statement at which the case ended abnormally
             if ("timeout" in r or "abort" in r) and not results and len(chunk) > 1:
@@ -304,7 +422,7 @@ def stage_fuzz(ctx, rng, gverif, klist):
             if any(not x.get("ok") for x in results[:nsetup]):
                 viol.append({"what": "session setup failed", "replay": {"stmts": c["stmts"][:nsetup], "results": results[:nsetup]}, "no_input": False})
                 continue
-            for ti, ((label, sql), p) in enumerate(zip(chunk, pos)):
+            for ti, ((label, sql), p) in enumerate(zip([t[:2] for t in chunk], pos)):
                 x = results[p] if p < len(results) else None
                 cls = res_class(x)
                 case_dead = x is None and ("abort" in r or "timeout" in r) and (p == len(results) or not results)
@@ -320,12 +438,12 @@ def stage_fuzz(ctx, rng, gverif, klist):
                 stats["by_label"][label][cls] += 1
                 if cls == "error":
                     stats["error_texts"].add(re.sub(r"[0-9]+", "#", x.get("err") or "")[:50])
-                replay = {"stmts": list(SETUP) + list(setup_db) + [sql] + PROBES, "mode": c["mode"], "label": label, "sql": sql if len(sql) < 3000 else sql[:1500] + " ...[%d chars]" % len(sql),
+                replay = {"stmts": setup_for(cfg) + list(setup_db) + [sql] + PROBES, "batch_size": cfg[0], "partitions": cfg[1], "mode": c["mode"], "label": label, "sql": sql if len(sql) < 3000 else sql[:1500] + " ...[%d chars]" % len(sql),
                           "how": "one `gverif sql` case with these statements"}
                 if cls in ("panic", "timeout", "abort"):
                     # again alone, in a process of its own: clean stderr gives the panic site
-                    one = {"id": "one", "mode": c["mode"], "threads": 2, "partitions": 2, "timeout_s": 20,
-                           "stmts": list(SETUP) + list(setup_db) + [sql], "sched": {"kind": "fifo", "seed": 1}}
+                    one = {"id": "one", "mode": c["mode"], "threads": c["threads"], "partitions": cfg[1], "timeout_s": 20,
+                           "stmts": setup_for(cfg) + list(setup_db) + [sql], "sched": {"kind": "fifo", "seed": 1}}
                     if cls == "timeout" and case_dead and len(chunk) == 1:
                         rr = {"id": "one", "timeout": 20, "stderr": ""}      # already alone in its session: no second 20 s wait
                     else:
@@ -368,10 +486,10 @@ def stage_fuzz(ctx, rng, gverif, klist):
                     touches = re.search(r"probe_t", sql, re.I) and re.search(r"insert|drop|delete|update|truncate", sql, re.I)
                     want = [[["I1"]], [["I3"]], None]
                     got = [y.get("rows") if y.get("ok") else ("error: " + (y.get("err") or "")) for y in pr]
-                    okp = got[0] == want[0] and (touches or got[1] == want[1]) and isinstance(got[2], list) and len(got[2]) == 1 and "77" in json.dumps(got[2])
+                    okp = got[0] == want[0] and (touches or got[1] == want[1]) and isinstance(got[2], list) and len(got[2]) == 1 and json.dumps(got[2]) == json.dumps([["I%d" % cfg[0]]])
                     if not okp:
                         viol.append({"what": "state changed by a FAILED statement (model/Session.v: visible unchanged)",
-                                     "replay": dict(replay, error=x.get("err"), probes_got=got, probes_want=["[[I1]]", "[[I3]]", "batch_size 77"]), "no_input": False})
+                                     "replay": dict(replay, error=x.get("err"), probes_got=got, probes_want=["[[I1]]", "[[I3]]", "batch_size %d" % cfg[0]]), "no_input": False})
                     if label == "runtime-kth-ctas" and p + 4 < len(results):
                         y = results[p + 4]
                         if y.get("ok"):
@@ -386,7 +504,7 @@ def stage_fuzz(ctx, rng, gverif, klist):
             if dead_at is not None and dead_at + 1 < len(chunk):
                 queue.append(chunk[dead_at + 1:])
     return {"viol": viol, "known": known, "stats": stats, "tests": len(tests), "cases": ncase, "rounds": rounds,
-            "sample": {"valid": tests[0][1][:200], "mutated": [s for l, s in tests if l == "mutated"][:2]}}
+            "sample": {"valid": tests[0][1][:200], "mutated": [t[1] for t in tests if t[0] == "mutated"][:2]}}
 
 
 def stage_depth(ctx, gverif, klist, known, viol, stats):
@@ -458,7 +576,8 @@ def run(ctx):
         "samples": [k["sample"], {"outcomes": st["outcomes"]}],
         "outcomes": st["outcomes"], "outcomes_by_generator": st["by_label"], "statements": st["statements"], "probe_triples_checked": st["probe_checks"],
         "sessions": k["cases"], "threaded_sessions": st["threaded_cases"], "requeue_rounds": k["rounds"], "unreached_statements": st.get("unreached", 0), "distinct_error_texts": len(st["error_texts"]),
-        "depth_witness": d, "exhaustive": False,
+        "depth_witness": d, "functions_listed_by_engine": _FUNCS.get("listed"), "function_names_called": len(_FUNCS.get("names") or []),
+        "batch_sizes": BATCH_SIZES, "partitions": PARTITIONS, "exhaustive": False,
     }
     out["level_claimed"] = "partial"
     out["level_note"] = ("the universally quantified part of C15 (no statement text panics, aborts or hangs the process) is a SEARCH over generated statements, not a proof; "
